@@ -127,6 +127,11 @@ pub struct RunCfg {
     pub cfg_note: J,
 }
 
+/// layout group of a run (C20): runs of one group are the same test printed in different layouts, against the same driver
+pub fn group_of(cfg: &RunCfg) -> (u64, u64) {
+    (cfg.cfg_note.get("group").and_then(|g| g.as_u64()).unwrap_or(0), cfg.cfg_note.get("variant").and_then(|g| g.as_u64()).unwrap_or(0))
+}
+
 /// Everything about a run that is decided before it starts.
 pub struct Prepared {
     pub test: Test,
@@ -272,6 +277,7 @@ pub fn trace_run(prep: &Prepared, cfg: &RunCfg, policy: Policy) -> Vec<J> {
             iterate_pub(&tc, &mut d, &log, &table, cfg, 1, &mut out);
         }
     }
-    out.push(json!({"ev":"end","run":cfg.run}));
+    let (group, variant) = group_of(cfg);
+    out.push(json!({"ev":"end","run":cfg.run,"group":group,"variant":variant,"load":load_kind}));
     out
 }
